@@ -105,7 +105,7 @@ def judge(res, truth, kind, target, follow, faulted):
         want = truth[(kind, repr(target))]
         got = res['target']
         if faulted and res['fired']:
-            if got[0] != 'exc' and got != want:
+            if not battery.acceptable(got, want):
                 return 'target-returned-wrong', f'{target} returned {got} under fault, true result {want}'
         else:
             if got != want:
@@ -132,6 +132,13 @@ def short_len(rng, want):
     if c < 0.8:
         return (want // 8) * 4 + 2
     return rng.randrange(0, want)
+
+
+def fault_arg(rng, kind, want):
+    """Length of a short answer, or which exception class an 'exception' fault raises."""
+    if kind.startswith('exception'):
+        return rng.randrange(5)
+    return short_len(rng, want)
 
 
 # --------------------------------------------------------------------------------------------
@@ -202,12 +209,20 @@ def one_item(ctx, run):
     for k in range(N):
         for fk in kinds:
             want = base['reqs'][k][1] if k < len(base['reqs']) else 4096
-            plans.append({k: (fk, short_len(fr, want))})
+            plans.append({k: (fk, fault_arg(fr, fk, want))})
     # ---- seeded pairs
     if N >= 2:
         for _ in range(min(6, N)):
             k1, k2 = sorted(fr.sample(range(N), 2))
-            plans.append({k1: (fr.choice(kinds), short_len(fr, 4096)), k2: (fr.choice(kinds), short_len(fr, 4096))})
+            f1, f2 = fr.choice(kinds), fr.choice(kinds)
+            plans.append({k1: (f1, fault_arg(fr, f1, 4096)), k2: (f2, fault_arg(fr, f2, 4096))})
+    # ---- adjacent pairs: the request issued right after a faulted one (what a retry would be) is
+    #      faulted too, half of the time with a short / empty answer
+    for k in range(min(N, 24)):
+        f1 = fr.choice(kinds)
+        f2 = fr.choice(['short', 'empty']) if fr.random() < 0.6 else fr.choice(kinds)
+        want = base['reqs'][k][1] if k < len(base['reqs']) else 4096
+        plans.append({k: (f1, fault_arg(fr, f1, want)), k + 1: (f2, fault_arg(fr, f2, want))})
     d0 = 4096 * m['n_header_blocks']
     d1 = d0 + 4096 * m['data_blocks']
     for plan in plans:
@@ -218,6 +233,14 @@ def one_item(ctx, run):
         rec['faulted'] += 1
         for (k, fk, off, ln, th) in res['fired']:
             rec['fault_counts'][fk] += 1
+            if fk.startswith('exception'):
+                names = (['OSError(EIO)', 'TimeoutError', 'ConnectionResetError', 'SimIncompleteRead', 'OSError(EIO)']
+                         if remote else ['OSError(EIO)', 'TimeoutError', 'ConnectionResetError', 'InterruptedError',
+                                         'OSError(ESTALE)'])
+                if remote and plan[k][1] % 5 == 0:
+                    rec['fault_counts']['raised:SimTransportError'] += 1
+                else:
+                    rec['fault_counts']['raised:' + names[plan[k][1] % 5]] += 1
             sec = 'header' if off < d0 else ('data' if off < d1 else 'footer')
             rec['probes']['fault_in_' + sec] += 1
             rec['probes']['fault_on_pool_worker' if th.startswith('w-') else 'fault_on_calling_thread'] += 1
@@ -228,6 +251,8 @@ def one_item(ctx, run):
             rec['keys'].add((rec['layout'], target[0], min(k, 40), fk, 'blob' if remote else 'file'))
         if len(plan) == 2 and len(res['fired']) == 2:
             rec['probes']['two_faults_fired_in_one_call'] += 1
+            if res['fired'][1][0] == res['fired'][0][0] + 1 and res['fired'][1][2:4] == res['fired'][0][2:4]:
+                rec['probes']['second_fault_hit_a_repeat_of_the_same_range'] += 1
         tgt = res['target'] if target[0] != 'open' else res['open']
         if tgt is not None and tgt[0] == 'exc':
             rec['raised'] += 1
